@@ -17,6 +17,7 @@ Model/Time.lean) computes: no operation overflows, so no answer is the product o
 arithmetic.
 -/
 import JulianVerif.Model.Time
+import JulianVerif.Model.Iter
 namespace JV.Chk
 
 def i32 (x : Int) : Option Int := if inI32 x then some x else none
@@ -502,5 +503,25 @@ def system2jdn (before : Bool) (secs nanos : Int) : Option (Option (Int × Int))
     let t ← if nanos > 0 then i64 (n - 1) else pure n
     unix2jdn t
   else unix2jdn secs
+
+/-! ### iter.rs: the two trimming loops of `Dates::new` (`nth_date` itself: `Chk.nthDate`) -/
+
+/-- `while start <= end && nth_date(start).is_none() { start += 1; }` -/
+def trimStart (s : MonthShape) : Nat → Int → Int → Option Int
+  | 0, start, _ => pure start
+  | fuel + 1, start, stop =>
+    if start ≤ stop && (s.nthDate start).isNone then do
+      let start ← u32 (start + 1)
+      trimStart s fuel start stop
+    else pure start
+
+/-- `while start <= end && nth_date(end).is_none() { end -= 1; }` -/
+def trimEnd (s : MonthShape) : Nat → Int → Int → Option Int
+  | 0, _, stop => pure stop
+  | fuel + 1, start, stop =>
+    if start ≤ stop && (s.nthDate stop).isNone then do
+      let stop ← u32 (stop - 1)
+      trimEnd s fuel start stop
+    else pure stop
 
 end JV.Chk
